@@ -71,6 +71,33 @@ def bindPositional {V : Type} (o : ValOps V) (ps : List (String × FType)) (args
     Option (List (String × V)) :=
   if args.length > ps.length then none else bindLoop o ps args
 
+/-- `build_named_parameters` (`builders.rs:1292`): the named arguments are inserted into a `BTreeMap` in the order
+they are written, so of two arguments with one name the LATER one stays; `map.get(name)`. -/
+def namedLookup {V : Type} : List (String × V) → String → Option V
+  | [], _ => none
+  | (n, v) :: rest, k =>
+    match namedLookup rest k with
+    | some w => some w
+    | none => if n == k then some v else none
+
+/-- The loop of `eval_function_named` (`builders.rs:2264`): every parameter, in the order of the declaration,
+receives the argument of its name coerced to the parameter's own type; `none` is the early `return null` when there
+is no argument of that name. -/
+def bindNamedLoop {V : Type} (o : ValOps V) (m : String → Option V) : List (String × FType) → Option (List (String × V))
+  | [] => some []
+  | (k, t) :: ps =>
+    match m k with
+    | none => none
+    | some a => (bindNamedLoop o m ps).map ((k, o.coerced t a) :: ·)
+
+/-- `eval_function_named` up to the evaluation of the body: `none` ("invalid name of an argument") when an
+argument carries a name that no parameter has (`builders.rs:2261`), `none` ("invalid number of arguments") when a
+parameter has no argument, otherwise the entries the body is evaluated with. -/
+def bindNamed {V : Type} (o : ValOps V) (ps : List (String × FType)) (args : List (String × V)) :
+    Option (List (String × V)) :=
+  if args.any (fun a => !(ps.any (fun p => p.1 == a.1))) then none
+  else bindNamedLoop o (namedLookup args) ps
+
 /-- The closure `precedes` of `core::sort` (`bifs/core.rs:920`): the two items under comparison bound to the two
 parameters of the ordering function, each coerced to the type of ITS parameter. -/
 def sortBindings {V : Type} (o : ValOps V) (p q : String × FType) (x y : V) : List (String × V) :=
